@@ -89,7 +89,43 @@ def _parts(v):
     return [v] if isinstance(v, str) else list(v.parts)
 
 
+def _prune_empty(interp, path, v):
+    """rebuild a string whose Join parts contain comprehension blocks that are provably empty on this path"""
+    if not isinstance(v, StrT) or not any(isinstance(p, JoinT) for p in v.parts):
+        return v
+    out = []
+    changed = False
+    for p in v.parts:
+        if isinstance(p, JoinT) and isinstance(p.sep, str):
+            blocks = []
+            for blk in p.seq.blocks:
+                if isinstance(blk, (CompB, GuardB)):
+                    ne = interp.seq_nonempty(SeqT([blk]), path)
+                    if ne is False or (ne is not True and path.entails(z3.Not(interp.zbool(ne)))):
+                        changed = True
+                        continue
+                blocks.append(blk)
+            t = mkseq(blocks)
+            if ops.seq_is_lit(t):
+                items = ops.seq_lit_items(t)
+                parts = []
+                for i, it in enumerate(items):
+                    if i:
+                        parts.append(p.sep)
+                    parts.append(it)
+                out.extend(parts)
+                changed = True
+            else:
+                out.append(JoinT(p.sep, t))
+        else:
+            out.append(p)
+    return ops.mkstr(out) if changed else v
+
+
 def _eq_str(interp, path, a, b, where, leaves):
+    if canon(a) == canon(b):
+        return
+    a, b = _prune_empty(interp, path, a), _prune_empty(interp, path, b)
     if canon(a) == canon(b):
         return
     pa, pb = _parts(a), _parts(b)
